@@ -74,6 +74,10 @@ CHECKS["C01"] = ("§5 C01", "Reduction of host transparency to the trace-functio
     "subclasses) in locals / return value / exception argument, and fault injection at a SYMBOLIC call index among the agent's calls into its sub-components and environment "
     "(the solver partitions the index over the calls actually made), both fault classes: nothing is raised, tracing stays on, locals untouched, iterators not advanced, and a "
     "later benign run over the same tracepoints still produces every effect (no poisoned per-thread state).")
+CHECKS["C08"] = ("§5 C08", "Field-by-field equality (walking the real protobuf descriptors, so a new or dropped field is noticed) between harness-assembled "
+    "snapshots (0-2 frames, 0-3 table entries with children, good/error watches from 4 sources, 12 attribute value shapes, optional fields present/absent, boundary numeric "
+    "values, one string field at a time replaced by empty / non-ASCII / control / long text) and the message produced by the real convert_snapshot, plus serialise/parse "
+    "round trip; poll and send requests carry exactly the auth provider's metadata for 4 provider and 4 credential configurations.")
 PENDING = {}
 
 def main():
